@@ -56,6 +56,18 @@ def gen_cases(chk):
             for _ in range(3000 if thorough else 500):
                 k = r.range(1, b)
                 cases.append(('midx', (flag, n) + tuple(r.bits(k) for _ in range(n))))
+    # Morton with 32-bit coordinates over size_t-indexed storage: coordinates at and beyond 2^(32/N) (all 32 bits per axis must count:
+    # the bit budget is that of the storage index, 64/N, not that of the coordinate type)
+    for n in range(1, 5):
+        for flag in 'pb':
+            lim = min(32, 64 // n)
+            for j in range(n):
+                for i in range(lim):
+                    c = [0] * n
+                    c[j] = 1 << i
+                    cases.append(('midx32', (flag, n) + tuple(c)))
+            for _ in range(600 if thorough else 120):
+                cases.append(('midx32', (flag, n) + tuple(r.bits(r.range(1, lim)) for _ in range(n))))
     return cases
 
 
@@ -99,7 +111,7 @@ def run(replay=None):
     chk = core.Check('C14', 'proof')
     chk.cov['rule'] = ('row-major: every coordinate of every box with extents <= 4 (N <= 3; <= 3 for N = 4) at size_t and a third of them at unsigned/int/long, '
                        'plus seeded large / prime / 2^k+-1 extents with cell counts up to the coordinate type maximum (over the identity backend, so nothing is allocated); '
-                       'Morton: all coordinates with <= 3 bits per axis, every single-bit pattern, all-ones, seeded random below 2^floor(64/N), N = 1..4, portable and use_bmi2 flags, in builds without and with -mbmi2; '
+                       'Morton: all coordinates with <= 3 bits per axis, every single-bit pattern, all-ones, seeded random below 2^floor(64/N), N = 1..4, portable and use_bmi2 flags, in builds without and with -mbmi2, with size_t coordinates and with unsigned int coordinates up to 2^32 per axis; '
                        'Hilbert: every cell of the 2^k square for k <= 6 (quick) / 10 (thorough), judged by bijection + origin + edge adjacency on the implementation table and equality with the recursion. '
                        'non-trivial = a coordinate with a non-zero component; distinct by the case tuple')
     driver, exes, disabled, clog = lc.build(chk)
@@ -147,7 +159,7 @@ def run(replay=None):
                 if g != spec and nd < 10:
                     nd += 1
                     chk.obligation_broken(f'correspondence {nm} vs rowmajor on {a}', f'generated kernel {g}, spec {spec}')
-        elif kind == 'midx':
+        elif kind in ('midx', 'midx32'):
             n = a[1]
             coords = a[2:]
             chk.count_case((kind,) + a, any(coords))
@@ -162,7 +174,7 @@ def run(replay=None):
             for cfg in impl:
                 v = impl[cfg].get(id_)
                 if v != spec:
-                    chk.violation(f'Morton position wrong (N={n}, flag {a[0]}, build {cfg})', f'morton N={n} use_bmi2={"true" if a[0] == "b" else "false"} coordinate {coords}: position {v} in build {cfg}, bit interleave is {spec}',
+                    chk.violation(f'Morton position wrong (N={n}, flag {a[0]}, build {cfg})', f'morton N={n} use_bmi2={"true" if a[0] == "b" else "false"}{" (unsigned int coordinates)" if kind == "midx32" else ""} coordinate {coords}: position {v} in build {cfg}, bit interleave is {spec}',
                                   {'cases': [[kind, list(a)]], 'impl': v, 'spec': spec, 'build': cfg})
             for nm, g in (('gen_morton_index', gen), ('gen_morton_index_bmi2', gbmi)):
                 if g != spec and nd < 10:
